@@ -629,6 +629,25 @@ pub fn cost_families(out: &mut crate::Out, thorough: bool, seed: u64) {
             }
         }
     }
+    // containers longer than 65536 elements (one element doubled 17 times: 131072), recomputed by the specification: element indices
+    // and slice bounds are 16-bit whatever the container holds (65535 is the last index that can succeed)
+    for vecs in [false, true] {
+        let mut p: Vec<OpCode> = if vecs { vec![PushIC(U256::from(7u32)), VEmpty, VPush] } else { vec![PushB(vec![7u8])] };
+        p.extend([Loop(17, 2), Dup, if vecs { VAppend } else { BAppend }, StoreImm(0)]);
+        for idx in [65534u32, 65535, 65536, 65537, 100_000, 131_071, 131_072] {
+            let mut v = p.clone();
+            v.extend([PushI(U256::from(idx)), LoadImm(0), if vecs { VRef } else { BRef }]);
+            put(out, "cost-long-index", v, false);
+            let mut v = p.clone();
+            v.extend([PushIC(U256::from(9u32)), PushI(U256::from(idx)), LoadImm(0), if vecs { VSet } else { BSet }, if vecs { VLength } else { BLength }]);
+            put(out, "cost-long-index", v, false);
+        }
+        for (b, e) in [(65534u32, 65535u32), (65535, 65536), (65536, 70_000), (0, 65536), (0, 131_072), (70_000, 60_000)] {
+            let mut v = p.clone();
+            v.extend([PushI(U256::from(e)), PushI(U256::from(b)), LoadImm(0), if vecs { VSlice } else { BSlice }, if vecs { VLength } else { BLength }]);
+            put(out, "cost-long-index", v, false);
+        }
+    }
     // a doubled byte string (32 * 2^n bytes by structural sharing) as each operand of the signature check and of the bounded
     // hash: every length test must come before the operand is flattened
     {
